@@ -10,6 +10,7 @@ import (
 	"pgregory.net/rapid"
 
 	"verif/internal/h"
+	"verif/internal/recipe"
 	"verif/internal/rt"
 	"verif/internal/sut"
 )
@@ -27,218 +28,20 @@ type Case struct {
 	Wide int      `json:"wide"` // > 0: stress case binding that many variables at once
 }
 
-const nPool = 5
+const nPool = recipe.NPool
 
 func (c Case) String() string {
 	return fmt.Sprintf("%s  vs  %s  [recipes %v / %v, double_quotes=%s, %s, go=%v]", c.A, c.B, c.RecA, c.RecB, c.DQ, c.Mix, c.Go)
-}
-
-// ---- text recipes ---------------------------------------------------------------------------------
-
-const (
-	recBracket = iota
-	recDot
-	recAppend
-	recString
-	recAtomChars
-	recUniv
-	recStrAppend
-	recLength
-	recFindall
-	recCopy
-	nRecipes
-)
-
-var recipeNames = []string{"bracket", "dot_compound", "append", "string_literal", "atom_chars_codes", "univ", "string_append", "length_skeleton", "findall", "copy_term"}
-
-type emitter struct {
-	rec     []int
-	pos     int
-	aux     *int
-	prelude *[]string
-	dq      string
-	used    map[string]bool
-	names   map[int64]string
-}
-
-func (e *emitter) next() int {
-	if len(e.rec) == 0 {
-		return recBracket
-	}
-	r := e.rec[e.pos%len(e.rec)]
-	e.pos++
-	return r % nRecipes
-}
-
-func (e *emitter) fresh() string {
-	*e.aux++
-	return fmt.Sprintf("L%d", *e.aux)
-}
-
-func bracket(es []string, tail string) string {
-	if len(es) == 0 {
-		return tail
-	}
-	if tail == "[]" {
-		return "[" + strings.Join(es, ",") + "]"
-	}
-	return "[" + strings.Join(es, ",") + "|" + tail + "]"
-}
-
-// stringable: the elements are what a double-quoted literal denotes under the flag.
-func (e *emitter) stringable(elems []*rt.Term) (string, bool) {
-	var sb strings.Builder
-	for _, el := range elems {
-		switch {
-		case e.dq == "chars" && el.K == rt.Atom && len([]rune(el.S)) == 1 && strChar([]rune(el.S)[0]):
-			sb.WriteString(el.S)
-		case e.dq == "codes" && el.K == rt.Int && strChar(rune(el.I)):
-			sb.WriteRune(rune(el.I))
-		default:
-			return "", false
-		}
-	}
-	return sb.String(), len(elems) > 0
-}
-
-// strChar: characters used in string-like lists (letters that may stand unescaped in a double-quoted literal)
-func strChar(r rune) bool {
-	return r >= 'a' && r <= 'z' || r == 'é' || r == '日' || r == '本'
-}
-
-var strChars = []rune{'a', 'b', 'c', 'd', 'é', '日', '本'}
-
-func ground(ts []*rt.Term) bool {
-	for _, t := range ts {
-		if len(t.Vars(nil)) > 0 {
-			return false
-		}
-	}
-	return true
-}
-
-func (e *emitter) emit(t *rt.Term) string {
-	switch t.K {
-	case rt.Var:
-		return e.names[t.I]
-	case rt.Comp:
-		if !t.Is(".", 2) {
-			as := make([]string, len(t.A))
-			for i, a := range t.A {
-				as[i] = e.emit(a)
-			}
-			return rt.QuoteAtom(t.S) + "(" + strings.Join(as, ",") + ")"
-		}
-	default:
-		return t.Text(e.names)
-	}
-	elems, rest := t.Unlist()
-	es := make([]string, len(elems))
-	for i, el := range elems {
-		es[i] = e.emit(el)
-	}
-	tail := e.emit(rest)
-	proper := rest.IsAtom("[]")
-	str, isStr := e.stringable(elems)
-	r := e.next()
-	if isStr {
-		// a string-like list: prefer the string representations (they are what the property singles out)
-		switch r % 4 {
-		case 0, 1:
-			if proper {
-				r = []int{recString, recAtomChars}[r%4]
-			} else {
-				r = recStrAppend
-			}
-		case 2:
-			r = recBracket
-		}
-	}
-	use := func(n string) { e.used[n] = true }
-	switch r {
-	case recDot:
-		use("dot_compound")
-		s := tail
-		for i := len(es) - 1; i >= 0; i-- {
-			s = "'.'(" + es[i] + "," + s + ")"
-		}
-		return s
-	case recAppend:
-		use("append")
-		k := 1 + e.pos%len(es)
-		l := e.fresh()
-		*e.prelude = append(*e.prelude, fmt.Sprintf("append(%s, %s, %s)", bracket(es[:k], "[]"), bracket(es[k:], tail), l))
-		return l
-	case recString:
-		if isStr && proper {
-			use("string_literal")
-			return "\"" + str + "\""
-		}
-	case recAtomChars:
-		if isStr && proper {
-			use("atom_chars_codes")
-			l := e.fresh()
-			p := "atom_chars"
-			if e.dq == "codes" {
-				p = "atom_codes"
-			}
-			*e.prelude = append(*e.prelude, fmt.Sprintf("%s(%s, %s)", p, str, l))
-			return l
-		}
-	case recUniv:
-		use("univ")
-		l := e.fresh()
-		*e.prelude = append(*e.prelude, fmt.Sprintf("%s =.. ['.', %s, %s]", l, es[0], bracket(es[1:], tail)))
-		return l
-	case recStrAppend:
-		if isStr {
-			use("string_append")
-			l := e.fresh()
-			*e.prelude = append(*e.prelude, fmt.Sprintf("append(\"%s\", %s, %s)", str, tail, l))
-			return l
-		}
-	case recLength:
-		if proper {
-			use("length_skeleton")
-			l := e.fresh()
-			*e.prelude = append(*e.prelude, fmt.Sprintf("length(%s, %d)", l, len(es)), fmt.Sprintf("%s = %s", l, bracket(es, "[]")))
-			return l
-		}
-	case recFindall:
-		if proper && ground(elems) {
-			use("findall")
-			l, x := e.fresh(), e.fresh()
-			*e.prelude = append(*e.prelude, fmt.Sprintf("findall(%s, member(%s, %s), %s)", x, x, bracket(es, "[]"), l))
-			return l
-		}
-	case recCopy:
-		if len(t.Vars(nil)) == 0 { // copy_term renames variables: only for ground lists
-			use("copy_term")
-			l := e.fresh()
-			*e.prelude = append(*e.prelude, fmt.Sprintf("copy_term(%s, %s)", bracket(es, tail), l))
-			return l
-		}
-	}
-	use("bracket")
-	return bracket(es, tail)
-}
-
-func poolNames() map[int64]string {
-	m := map[int64]string{}
-	for i := 0; i < 400; i++ {
-		m[int64(i)] = fmt.Sprintf("V%d", i)
-	}
-	return m
 }
 
 // build renders both sides; returns the prelude goals, the two texts and the recipes used.
 func (c Case) build() (prelude []string, ta, tb string, used map[string]bool) {
 	aux := 0
 	used = map[string]bool{}
-	ea := &emitter{rec: c.RecA, aux: &aux, prelude: &prelude, dq: c.DQ, used: used, names: poolNames()}
-	ta = ea.emit(c.A)
-	eb := &emitter{rec: c.RecB, aux: &aux, prelude: &prelude, dq: c.DQ, used: used, names: poolNames()}
-	tb = eb.emit(c.B)
+	ea := &recipe.Emitter{Rec: c.RecA, Aux: &aux, Prelude: &prelude, DQ: c.DQ, Used: used, Names: recipe.PoolNames()}
+	ta = ea.Emit(c.A)
+	eb := &recipe.Emitter{Rec: c.RecB, Aux: &aux, Prelude: &prelude, DQ: c.DQ, Used: used, Names: recipe.PoolNames()}
+	tb = eb.Emit(c.B)
 	return
 }
 
@@ -374,119 +177,6 @@ func checkText(c Case) (used map[string]bool, class string, err error) {
 	return used, class, nil
 }
 
-// ---- Go constructors --------------------------------------------------------------------------------
-
-const (
-	goList = iota
-	goPartial
-	goCharList
-	goCodeList
-	goDotApply
-	nGoRecipes
-)
-
-var goRecipeNames = []string{"engine.List", "engine.PartialList", "engine.CharList", "engine.CodeList", "Atom('.').Apply"}
-
-type gobuilder struct {
-	rec  []int
-	pos  int
-	vars map[int64]engine.Variable
-	used map[string]bool
-}
-
-func (g *gobuilder) next() int {
-	if len(g.rec) == 0 {
-		return goList
-	}
-	r := g.rec[g.pos%len(g.rec)]
-	g.pos++
-	return r % nGoRecipes
-}
-
-func (g *gobuilder) build(t *rt.Term) engine.Term {
-	switch t.K {
-	case rt.Var:
-		if v, ok := g.vars[t.I]; ok {
-			return v
-		}
-		v := engine.NewVariable()
-		g.vars[t.I] = v
-		return v
-	case rt.Atom:
-		return engine.NewAtom(t.S)
-	case rt.Int:
-		return engine.Integer(t.I)
-	case rt.Float:
-		return engine.Float(t.F)
-	}
-	if !t.Is(".", 2) {
-		args := make([]engine.Term, len(t.A))
-		for i, a := range t.A {
-			args[i] = g.build(a)
-		}
-		return engine.NewAtom(t.S).Apply(args...)
-	}
-	elems, rest := t.Unlist()
-	es := make([]engine.Term, len(elems))
-	for i, e := range elems {
-		es[i] = g.build(e)
-	}
-	tail := g.build(rest)
-	proper := rest.IsAtom("[]")
-	chars, codes := true, true
-	var sb strings.Builder
-	for _, e := range elems {
-		if !(e.K == rt.Atom && len([]rune(e.S)) == 1) {
-			chars = false
-		}
-		if !(e.K == rt.Int && e.I > 0 && e.I < 0x10FFFF && (e.I < 0xD800 || e.I > 0xDFFF)) {
-			codes = false
-		}
-	}
-	r := g.next()
-	if len(elems) > 0 && (chars || codes) && r%3 != 2 { // string-like: prefer the string representations
-		r = goCharList
-		if codes {
-			r = goCodeList
-		}
-	}
-	switch {
-	case r == goCharList && chars && proper:
-		for _, e := range elems {
-			sb.WriteString(e.S)
-		}
-		g.used["engine.CharList"] = true
-		return engine.CharList(sb.String())
-	case r == goCodeList && codes && proper:
-		for _, e := range elems {
-			sb.WriteRune(rune(e.I))
-		}
-		g.used["engine.CodeList"] = true
-		return engine.CodeList(sb.String())
-	case r == goPartial || (r == goCharList && chars) || (r == goCodeList && codes):
-		// PartialList over a prefix that may itself be a string representation
-		if (r == goCharList && chars) || (r == goCodeList && codes) {
-			g.used["engine.PartialList(string prefix)"] = true
-		} else {
-			g.used["engine.PartialList"] = true
-		}
-		return engine.PartialList(tail, es...)
-	case r == goDotApply:
-		g.used["Atom('.').Apply"] = true
-		out := tail
-		for i := len(es) - 1; i >= 0; i-- {
-			out = engine.NewAtom(".").Apply(es[i], out)
-		}
-		return out
-	}
-	if proper {
-		g.used["engine.List"] = true
-		return engine.List(es...)
-	}
-	g.used["engine.PartialList"] = true
-	return engine.PartialList(tail, es...)
-}
-
 // checkGo builds both sides with the Go constructors and calls the engine's Unify /
 // UnifyWithOccursCheck directly; the environment handed to the continuation is read structurally
 // and (hook) checked for the red-black invariants.
@@ -498,12 +188,12 @@ func checkGo(c Case) (used map[string]bool, class string, err error) {
 	i := sut.New()
 	for _, mode := range []string{"=", "=sym", "uwoc"} {
 		vars := map[int64]engine.Variable{}
-		ga := &gobuilder{rec: c.RecA, vars: vars, used: used}
-		gb := &gobuilder{rec: c.RecB, vars: vars, used: used}
-		ta, tb := ga.build(c.A), gb.build(c.B)
+		ga := &recipe.GoBuilder{Rec: c.RecA, Vars: vars, Used: used}
+		gb := &recipe.GoBuilder{Rec: c.RecB, Vars: vars, Used: used}
+		ta, tb := ga.Build(c.A), gb.Build(c.B)
 		pv := make([]engine.Term, len(vs))
 		for k, v := range vs {
-			pv[k] = ga.build(v)
+			pv[k] = ga.Build(v)
 		}
 		if sto && mode != "uwoc" {
 			continue
@@ -584,131 +274,40 @@ func init() {
 	h.Reg("c02", func(c Case) error { _, _, err := check(c); return err })
 }
 
-// ---- generators -----------------------------------------------------------------------------------------
-
-type gg struct {
-	t  *rapid.T
-	dq string
-}
-
-func (x *gg) n(lo, hi int, l string) int {
-	if hi <= lo {
-		return lo
-	}
-	return lo + int(rapid.Uint64().Draw(x.t, l)%uint64(hi-lo+1))
-}
-func (x *gg) p(pc int, l string) bool { return int(rapid.Uint64().Draw(x.t, l)%100) < pc }
-
-var atomPool = []string{"a", "b", "c", "[]", "", "é", "日本", "f", "g"}
-
-func (x *gg) atomic() *rt.Term {
-	switch k := x.n(0, 9, "atomic"); {
-	case k < 5:
-		return rt.A(atomPool[x.n(0, len(atomPool)-1, "atom")])
-	case k < 6:
-		return rt.A([]string{"x", "y", "z"}[x.n(0, 2, "char")])
-	case k < 8:
-		if x.dq == "codes" && x.p(60, "codeint") {
-			return rt.I(int64('a' + x.n(0, 3, "code")))
-		}
-		return rt.I(int64(x.n(-1, 2, "int")))
-	default:
-		return rt.F(float64(x.n(0, 2, "float")) / 2)
-	}
-}
-
-func (x *gg) term(d int) *rt.Term {
-	if d <= 0 || x.p(25, "leaf") {
-		if x.p(35, "var") {
-			return rt.V(int64(x.n(0, nPool-1, "v")))
-		}
-		return x.atomic()
-	}
-	switch k := x.n(0, 11, "shape"); {
-	case k < 1:
-		return rt.C("f", x.term(d-1))
-	case k < 2:
-		return rt.C("f", x.term(d-1), x.term(d-1)) // same name, other arity
-	case k < 3:
-		return rt.C("g", x.term(d-1), x.term(d-1))
-	case k < 4:
-		return rt.C("g", x.term(d-1), x.term(d-1), x.term(d-1))
-	case k < 5:
-		if x.p(50, "dot1") {
-			return rt.C(".", x.term(d-1)) // '.'/1
-		}
-		return rt.C(".", x.term(d-1), x.term(d-1), x.term(d-1)) // '.'/3
-	case k < 7:
-		// string-like list
-		n := x.n(1, 4, "strlen")
-		es := make([]*rt.Term, n)
-		for i := range es {
-			ch := strChars[x.n(0, len(strChars)-1, "c")]
-			if x.dq == "codes" {
-				es[i] = rt.I(int64(ch))
-			} else {
-				es[i] = rt.A(string(ch))
-			}
-		}
-		var tail *rt.Term
-		if x.p(30, "strpartial") {
-			tail = rt.V(int64(x.n(0, nPool-1, "tv")))
-		}
-		return rt.List(es, tail)
-	default:
-		n := x.n(0, 4, "listlen")
-		es := make([]*rt.Term, n)
-		for i := range es {
-			es[i] = x.term(d - 1)
-		}
-		var tail *rt.Term
-		switch k := x.n(0, 9, "tail"); {
-		case k < 3:
-			tail = rt.V(int64(x.n(0, nPool-1, "tv")))
-		case k < 4 && n > 0:
-			tail = x.atomic() // improper
-		}
-		if n == 0 && tail == nil {
-			return rt.Nil
-		}
-		return rt.List(es, tail)
-	}
-}
-
 // derive makes a partially instantiated / partially generalised copy of t (unifiable with t by construction
 // as long as the choices are consistent), optionally with one mutation deep inside or an occurs-check violation.
-func (x *gg) derive(t *rt.Term, inst map[int64]*rt.Term, mutate *bool, stoAt *bool) *rt.Term {
+func derive(x *recipe.G, t *rt.Term, inst map[int64]*rt.Term, mutate *bool, stoAt *bool) *rt.Term {
 	switch t.K {
 	case rt.Var:
-		if *stoAt && x.p(30, "stohere") {
+		if *stoAt && x.P(30, "stohere") {
 			*stoAt = false
 			return rt.C("f", t) // V against f(V)
 		}
 		if v, ok := inst[t.I]; ok {
 			return v
 		}
-		if x.p(30, "instantiate") {
-			v := x.term(1)
+		if x.P(30, "instantiate") {
+			v := x.Term(1)
 			inst[t.I] = v
 			return v
 		}
 		return t
 	case rt.Comp:
-		if x.p(12, "generalise") {
-			return rt.V(int64(x.n(0, nPool-1, "gv")))
+		if x.P(12, "generalise") {
+			return rt.V(int64(x.N(0, nPool-1, "gv")))
 		}
 		args := make([]*rt.Term, len(t.A))
 		for i, a := range t.A {
-			args[i] = x.derive(a, inst, mutate, stoAt)
+			args[i] = derive(x, a, inst, mutate, stoAt)
 		}
 		return rt.C(t.S, args...)
 	default:
-		if *mutate && x.p(25, "mutatehere") {
+		if *mutate && x.P(25, "mutatehere") {
 			*mutate = false
 			return rt.A("mutated")
 		}
-		if x.p(10, "generaliseleaf") {
-			return rt.V(int64(x.n(0, nPool-1, "gv")))
+		if x.P(10, "generaliseleaf") {
+			return rt.V(int64(x.N(0, nPool-1, "gv")))
 		}
 		return t
 	}
@@ -716,62 +315,62 @@ func (x *gg) derive(t *rt.Term, inst map[int64]*rt.Term, mutate *bool, stoAt *bo
 
 func genCase() *rapid.Generator[Case] {
 	return rapid.Custom(func(t *rapid.T) Case {
-		x := &gg{t: t}
-		c := Case{DQ: []string{"chars", "codes"}[x.n(0, 1, "dq")]}
-		x.dq = c.DQ
-		c.Go = x.p(35, "go")
-		nrec := nRecipes
+		x := &recipe.G{T: t}
+		c := Case{DQ: []string{"chars", "codes"}[x.N(0, 1, "dq")]}
+		x.DQ = c.DQ
+		c.Go = x.P(35, "go")
+		nrec := recipe.NRecipes
 		if c.Go {
-			nrec = nGoRecipes
+			nrec = recipe.NGoRecipes
 		}
-		for i, n := 0, x.n(1, 6, "nrec"); i < n; i++ {
-			c.RecA = append(c.RecA, x.n(0, nrec-1, "ra"))
-			c.RecB = append(c.RecB, x.n(0, nrec-1, "rb"))
+		for i, n := 0, x.N(1, 6, "nrec"); i < n; i++ {
+			c.RecA = append(c.RecA, x.N(0, nrec-1, "ra"))
+			c.RecB = append(c.RecB, x.N(0, nrec-1, "rb"))
 		}
-		if x.p(4, "wide") {
+		if x.P(4, "wide") {
 			// stress: bind 30..200 variables in one unification
-			n := x.n(30, 200, "width")
+			n := x.N(30, 200, "width")
 			c.Wide, c.Mix = n, "wide"
 			as, bs := make([]*rt.Term, n), make([]*rt.Term, n)
 			for i := 0; i < n; i++ {
 				as[i] = rt.V(int64(i))
-				switch x.n(0, 3, "wk") {
+				switch x.N(0, 3, "wk") {
 				case 0:
 					bs[i] = rt.I(int64(i))
 				case 1:
-					bs[i] = rt.V(int64(x.n(0, n-1, "alias")))
+					bs[i] = rt.V(int64(x.N(0, n-1, "alias")))
 				case 2:
 					bs[i] = rt.C("f", rt.V(int64((i+1)%n)))
 				default:
 					bs[i] = rt.ListOf(rt.I(int64(i)), rt.A("a"))
 				}
 			}
-			if x.p(50, "aslist") {
+			if x.P(50, "aslist") {
 				c.A, c.B = rt.List(as, nil), rt.List(bs, nil)
 			} else {
 				c.A, c.B = rt.C("w", as...), rt.C("w", bs...)
 			}
 			return c
 		}
-		c.A = x.term(3)
-		switch k := x.n(0, 9, "mix"); {
+		c.A = x.Term(3)
+		switch k := x.N(0, 9, "mix"); {
 		case k < 2:
 			c.Mix = "independent"
-			c.B = x.term(3)
+			c.B = x.Term(3)
 		case k < 6:
 			c.Mix = "derived_unifiable"
 			f1, f2 := false, false
-			c.B = x.derive(c.A, map[int64]*rt.Term{}, &f1, &f2)
+			c.B = derive(x, c.A, map[int64]*rt.Term{}, &f1, &f2)
 		case k < 9:
 			c.Mix = "derived_one_point_mutation"
 			f1, f2 := true, false
-			c.B = x.derive(c.A, map[int64]*rt.Term{}, &f1, &f2)
+			c.B = derive(x, c.A, map[int64]*rt.Term{}, &f1, &f2)
 		default:
 			c.Mix = "derived_occurs_check"
 			f1, f2 := false, true
-			c.B = x.derive(c.A, map[int64]*rt.Term{}, &f1, &f2)
+			c.B = derive(x, c.A, map[int64]*rt.Term{}, &f1, &f2)
 		}
-		if x.p(50, "swap") {
+		if x.P(50, "swap") {
 			c.A, c.B = c.B, c.A
 		}
 		return c
